@@ -91,6 +91,22 @@ PROPS = {
         "open_statements": ["proj_eq_spec", "unproj_proj", "proj_unproj", "base_cell_from_proj_coo_spec"],
         "assumptions": COMMON_ASSUME,
     },
+    "C03": {
+        "claim": "Theorems for every input of every numeric instance: every accessor (center_of_projected_cell, center, vertices, vertex, sph_coo, path_along_cell_edge, grid) rejects a cell number >= 12*4^depth; sph_coo rejects offsets outside [0,1) (NaN included); depth0_bits is structurally recursive (cannot loop). All accessors (center, center_of_projected_cell, vertices, vertex, sph_coo, hash_with_dxdy, path_along_cell_side/edge, grid) are modelled generically and compared bit for bit at Float: exhaustive cells to depth 3 (quick)/6 (thorough), corner/border/interior classes of the 12 base cells at all depths, 15k-300k structured positions. Oracles: hash(center)=h, hash(sph_coo)=h for interior offsets, path/grid points nudged inwards hash back, vertices agree across accessors as sphere points, hash_with_dxdy cell contains the position with offsets in [0,1] and sph_coo recovers it to 1e-13 rad, guards. Finding F11 (hash_with_dxdy on polar-cap seams/poles) is recorded as a known finding with an input classifier.",
+        "note": "PARTIAL proof: guard theorems proved; the plane-geometry statements over the reals are open; float rounding validated by oracle. KNOWN FINDING F11 is reported as KNOWN-FINDING, any other failure as VIOLATION.",
+        "level": "proof",
+        "trusted_base": ["Model/Num.lean + Model/F64.lean: numeric interface; at Float it mirrors the Rust operation sequence (compared bit for bit on every run)", "Model/Hash.lean: hand-written generic mirror of the accessors and of hash_with_dxdy/depth0_bits"],
+        "open_statements": ["center_plane_spec", "vertices_agree", "hash_with_dxdy_plane", "hash_center_real"],
+        "assumptions": COMMON_ASSUME,
+    },
+    "C19": {
+        "claim": "Theorems over the reals for the generic weight formulas instantiated at R (literals = exact values of the source doubles): in each of the 4 quadrants x {corner present, missing} the four weights sum to 1 (ring), are non-negative on their quadrant, weight 1 on the cell at its centre, a missing corner carries weight 0 in the corner slot, the cell itself is always a slot and the two other slots are ordinal directions (which always exist). bilinear_interpolation (hash_with_dxdy + neighbours + weights) is modelled and compared bit for bit (cells and weight bits) on 20k-400k structured positions plus the 24 cells lacking a cardinal neighbour x quadrants x interior/border offsets at every depth. Oracle: sum within 4 ulp of 1, non-negativity, membership in neighbours, cell present, centre weight, missing corner slot, grid mean.",
+        "note": "Algebra proved exactly for all offsets; that the four cells are the right neighbours rests on C04 (partially proved) and on the correspondence; rounding of the float weights validated by oracle. Inherits known finding F11 of hash_with_dxdy on polar-cap seams.",
+        "level": "proof",
+        "trusted_base": ["Model/Num.lean + Model/F64.lean: numeric interface; at Float it mirrors the Rust operation sequence (compared bit for bit on every run)", "Lemmas/NumReal.lean: the exact instance (R) of the numeric interface"],
+        "open_statements": ["bilinear_cells (needs C04 neighbours_complete)", "bilinear_mean"],
+        "assumptions": COMMON_ASSUME,
+    },
     "C15": {
         "claim": 'Theorems: each pack pass never lengthens the list, pack ends on a fixed point of the pass (a further pass merges nothing), to_lower_depth rejects new_depth>=depth_max. The fixed-depth builder is modelled as a state machine with explicit drain points and compared with the code for all push-sequence families x 9 capacities x 9 depths; pack/to_lower_depth on exhaustive universes and random trees; oracles check pushed-set equality, map preservation, no four full siblings, the lower-depth rule.',
         "note": 'PARTIAL proof: structural pack theorems proved; pack_sem/fixed_builder_sem/to_lower_depth_sem open. Trusted: Lean kernel, hand-written model, Vec capacity assumption.',
